@@ -188,6 +188,9 @@ def obligations(S):
                 obls.append(o)
             if p.outcome.kind != "ret":
                 add(f"{p.outcome.kind}", z3.BoolVal(False), {"msg": p.outcome.msg})
+                o4 = Obl(f"C04:try_{op}:{p.outcome.kind}", {"C04"}, f"C04:try_{op}:{p.outcome.kind}#path{pi}", p, z3.BoolVal(False), {"msg": p.outcome.msg})
+                o4.ex = ex
+                obls.append(o4)
                 continue
             s = Spec(ex, p, a, b)
             o4 = Obl(f"C04:try_{op}:path-ends-in-return", {"C04"}, f"C04:try_{op}:path-ends-in-return#path{pi}", p, z3.BoolVal(True))
@@ -279,7 +282,7 @@ def py_expected(op, a, b):
 
 def replayer(o, model):
     import kernelcheck
-    m = re.match(r"^C11:try_(\w+):", o.role)
+    m = re.match(r"^C\d+:try_(\w+):", o.role)
     if not m or "repeat-count" in o.role:
         return None
     op = m.group(1)
